@@ -323,6 +323,8 @@ class _Emitter(object):
         self.pending = []            # objects/sections waiting for their first marker
         self.secstack = []           # indices into sections
         self.frames = [None]         # \@currentlabel per open group (object index)
+        self.fbullet = [False]       # per open group: the last \item/\bibitem seen in it stepped nothing
+        self.funnum = [False]        # per open group: an unnumbered unit came after the current object
         self.last_event = None       # ('obj', i) | ('unnumbered',) | ('bullet',)
         self.ctx = "preamble"
         self.mathgroup = 0
@@ -352,9 +354,13 @@ class _Emitter(object):
 
     def push(self):
         self.frames.append(self.frames[-1])
+        self.fbullet.append(self.fbullet[-1])
+        self.funnum.append(self.funnum[-1])
 
     def pop(self):
         self.frames.pop()
+        self.fbullet.pop()
+        self.funnum.pop()
 
     def new_object(self, kind, name, number, asserted=True, position=None, refstep=True):
         o = Rec(kind=kind, name=name, first=None, number=number, asserted=asserted,
@@ -363,6 +369,8 @@ class _Emitter(object):
         self.pending.append(o)
         if refstep:
             self.frames[-1] = o.index
+            self.fbullet[-1] = False
+            self.funnum[-1] = False
             self.last_event = ("obj", o.index)
         return o
 
@@ -473,6 +481,14 @@ class _Emitter(object):
             elif self.last_event == ("bullet",):
                 cls = "bullet"
             else:
+                cls = "after-unnumbered"
+            # still inside an unnumbered item after a nested construct closed: plasTeX's current
+            # object is the bullet item again (the listed 'bullet' finding), not a stale inner one
+            if cls in ("stale", "after-unnumbered") and self.fbullet[-1]:
+                cls = "bullet"
+            # a nested construct closed after an unnumbered unit (\section*, ...): whether the label
+            # then belongs to that unit or to the last numbered object is not fixed by the statement
+            elif cls == "stale" and self.funnum[-1]:
                 cls = "after-unnumbered"
         self.labels[name] = Rec(name=name, obj=cur, cls=cls, order=len(self.labels),
                                 in_arg=self.in_arg > 0, refs_before=sum(
@@ -590,6 +606,7 @@ class _Emitter(object):
                     optseen = True
                     self.features.add("enumerate-optional-label")
                 self.last_event = ("bullet",)
+                self.fbullet[-1] = True
             if it.get("term") is not None:
                 self.features.add("item-term")
                 self.w("[")
@@ -692,7 +709,7 @@ class _Emitter(object):
             elif row.get("nonumber"):
                 self.features.add("nonumber")
                 self.new_object("row", "ArrayRow", None, refstep=False)
-                self.last_event = ("unnumbered",)
+                self.last_event = ("unnumbered",); self.funnum[-1] = True
             else:
                 num, okk = self._equation_number()
                 o = self.new_object("row", "ArrayRow", num, asserted=okk)
@@ -739,7 +756,7 @@ class _Emitter(object):
         self.push()
         if ctr is None:
             self.new_object("thm", "thmenv", None, refstep=False)
-            self.last_event = ("unnumbered",)
+            self.last_event = ("unnumbered",); self.funnum[-1] = True
         else:
             self.cm.step(ctr)
             self.event_log.append("step:" + ctr)
@@ -768,6 +785,7 @@ class _Emitter(object):
             self.bibitems.append(o)
             self.pending.append(o)
             self.last_event = ("bullet",)
+            self.fbullet[-1] = True
             self.w("\\bibitem{%s} " % it["key"])
             self.inlines(it["c"])
             self.w("\n")
@@ -790,14 +808,14 @@ class _Emitter(object):
         cm = self.cm
         if b.get("star"):
             self.new_object("sec", lv, None, refstep=False)
-            self.last_event = ("unnumbered",)
+            self.last_event = ("unnumbered",); self.funnum[-1] = True
         elif cm.sec_level(lv) > cm.depth:
             # LaTeX: no \refstepcounter at all -> everything that depends on the
             # counter is outside what is asserted from here on
             cm.taint(lv)
             self.features.add("unnumbered-by-depth")
             self.new_object("sec", lv, None, refstep=False)
-            self.last_event = ("unnumbered",)
+            self.last_event = ("unnumbered",); self.funnum[-1] = True
         else:
             had = [d for d in cm.dependants(lv) if cm.value[d]]
             if had:
